@@ -55,6 +55,7 @@ func runC09(c *Ctx) {
 	c.checkStaleState("stale-iteration-state", "align")
 	c.L.Floor("stale-iteration-state", 2, "two listed state machines of package align plus the scope line")
 	c.checkArgNameOrder("arg-name-order", "align")
+	c.checkPairedLines("paired-lines", "align")
 }
 
 func isUint8(t types.Type) bool {
